@@ -14,19 +14,20 @@ def Stats (r : Run) : Prop := r.attempts = 1 + r.retries + r.hedges
 
 def Preserves (l : Layer) : Prop := ∀ r res r', l r = some (res, r') → Stats r → Stats r'
 
+theorem stats_trigger (r : Run) (n : String) (hs : Stats r) : Stats (r.trigger n) := by
+  unfold Stats at *; simp only [Run.trigger_attempts, Run.trigger_retries, Run.trigger_hedges]; exact hs
+
 theorem base_preserves : Preserves base := by
   intro r res r' h hs
+  have hX : Stats ((r.emitSeen "fn" 0 r.seenLast).trigger "fn") := stats_trigger _ _ hs
   unfold base at h
   simp only at h
-  split at h
-  · simp only [Option.some.injEq, Prod.mk.injEq] at h; obtain ⟨_, rfl⟩ := h; exact hs
-  · split at h
-    · split at h
-      · simp at h
-      · simp only [Option.some.injEq, Prod.mk.injEq] at h
-        obtain ⟨_, rfl⟩ := h
-        split <;> exact hs
-    · simp only [Option.some.injEq, Prod.mk.injEq] at h; obtain ⟨_, rfl⟩ := h; exact hs
+  generalize ((r.emitSeen "fn" 0 r.seenLast).trigger "fn") = X at h hX
+  repeat' (split at h)
+  all_goals first
+    | (simp at h; done)
+    | (simp only [Option.some.injEq, Prod.mk.injEq] at h; obtain ⟨_, rfl⟩ := h
+       first | exact hX | (split <;> exact hX))
 
 def counters (r : Run) : Nat × Nat × Nat := (r.attempts, r.retries, r.hedges)
 
@@ -64,7 +65,7 @@ theorem retry_preserves (pos : Nat) (m : Int) (rl : Bool) (h a : List Cond) (inn
       obtain ⟨res1, r1⟩ := x
       have hs1 := hi r res1 r1 hin hs
       simp only [hin] at hh
-      by_cases hc : r1.cancelled = true
+      by_cases hc : r1.isCanc = true
       · simp only [hc, if_true, Option.some.injEq, Prod.mk.injEq] at hh
         obtain ⟨_, rfl⟩ := hh; exact hs1
       · simp only [hc] at hh
@@ -79,12 +80,18 @@ theorem retry_preserves (pos : Nat) (m : Int) (rl : Bool) (h a : List Cond) (inn
             · simp only [hd, if_true, Option.some.injEq, Prod.mk.injEq] at hh
               obtain ⟨_, rfl⟩ := hh; exact hs2
             · simp only [hd] at hh
-              apply ih _ res r' hh
-              show _ = _
-              simp only [Run.emit]
-              have : (retryOnFailure pos m rl a res1.withFailure r1).2.attempts =
-                  1 + (retryOnFailure pos m rl a res1.withFailure r1).2.retries + (retryOnFailure pos m rl a res1.withFailure r1).2.hedges := hs2
-              omega
+              generalize hX : (({ (retryOnFailure pos m rl a res1.withFailure r1).2 with
+                  last := (retryOnFailure pos m rl a res1.withFailure r1).1.outcome }).emit "rp.onRetryScheduled" pos).trigger "rp.onRetryScheduled" = X at hh
+              have hsX : Stats X := by rw [← hX]; exact stats_trigger _ _ hs2
+              by_cases hx : X.isCanc = true
+              · simp only [hx, if_true, Option.some.injEq, Prod.mk.injEq] at hh
+                obtain ⟨_, rfl⟩ := hh; exact hsX
+              · simp only [hx] at hh
+                apply ih _ res r' hh
+                show _ = _
+                simp only [Run.emit]
+                have : X.attempts = 1 + X.retries + X.hedges := hsX
+                omega
           · simp only [hf, Option.some.injEq, Prod.mk.injEq] at hh
             obtain ⟨_, rfl⟩ := hh; exact hs1
 
